@@ -651,6 +651,10 @@ def objectConstructImpl (ps : Pairs) : List (List Char × Json) :=
     | none => none
     | some k => if a.isLitNull then none else some (k, a.val.getD .null)
 
+/-- DuckDB has no empty struct literal: when nothing is left, `TO_JSON({})` is a ParserException -/
+def objectConstructDuck (ps : Pairs) : Except Err (List (List Char × Json)) :=
+  if (objectConstructImpl ps).isEmpty then .error .parser else .ok (objectConstructImpl ps)
+
 /-- OBJECT_CONSTRUCT drops every pair whose value (or key) is NULL -/
 def objectConstructSpec (ps : Pairs) : List (List Char × Json) :=
   ps.filterMap fun (k, a) =>
@@ -661,6 +665,25 @@ def objectConstructSpec (ps : Pairs) : List (List Char × Json) :=
 /-- OBJECT_CONSTRUCT_KEEP_NULL keeps them as JSON null (sqlglot renders DuckDB `JSON_OBJECT`) -/
 def objectConstructKeepNull (ps : Pairs) : List (List Char × Json) :=
   ps.filterMap fun (k, a) => k.map fun k => (k, a.val.getD .null)
+
+/-- what comes back for an array literal / ARRAY_CONSTRUCT: fakesnow leaves it a DuckDB LIST, which reaches Python
+    as a native list when the items have one type and is a ConversionException when they do not (`native`: the
+    list is handed over as it is, not as a JSON document) -/
+inductive ArrOut where
+  | native (items : List Json)
+  | err                     -- ConversionException or BinderException, depending on the item types
+  | unsup                   -- booleans mixed with numbers are coerced: outside the model
+deriving DecidableEq
+
+def Json.kind : Json → Nat
+  | .null => 0 | .bool _ => 1 | .num _ => 2 | .str _ => 3 | .arr _ => 4 | .obj _ => 5
+
+def arrayLitImpl (items : List Json) : ArrOut :=
+  match items.filter (· != .null) with
+  | [] => .native items
+  | j :: js =>
+    if js.all (·.kind == j.kind) then .native items
+    else if (j :: js).all (fun x => x.kind == 1 || x.kind == 2) then .unsup else .err
 
 /-- SPLIT(s, sep) with a one-character separator (DuckDB `str_split`, Python `str.split`) -/
 def splitOn (sep : Char) : List Char → List (List Char)
